@@ -1020,6 +1020,18 @@ func nmpOutFlag(ans string) bool {
 	return fl&2 != 0
 }
 
+// ttOutFlag reads bit 3 of the flag field of a `go` answer: the ghost flag `St.ttOut` of the skeleton
+// (a value beyond ±max(Inf-MaxPlies, Inf-ply) was handed to a table store at `ply` in this search —
+// the exact event the run-level hypothesis of the C06 score theorems for the real components excludes).
+func ttOutFlag(ans string) bool {
+	h := strings.Fields(strings.Split(ans, " | ")[0])
+	if len(h) != 7 {
+		return false
+	}
+	fl, _ := strconv.Atoi(h[6])
+	return fl&8 != 0
+}
+
 // saneVerdict reads the ` | nmpsane=…` suffix of a `gog` answer: checked, held, and the guarded
 // run's head + info lines when it differs.
 func saneVerdict(ans string) (checked, held bool, guarded string) {
@@ -1713,6 +1725,27 @@ func main() {
 					e.r.Count("model:nmpOut-raised", 1)
 					e.r.Count("model:nmpOut-raised:"+sc.kind, 1)
 					e.r.Sample(map[string]any{"nmpOut-raised": fmt.Sprintf("script %d step %d", i, j), "kind": sc.kind, "ops": sc.ops(len(sc.steps)), "answer": ans}, 20)
+				}
+				// the run-level hypothesis of the real score theorems: no out-of-band value was handed to a table store
+				e.r.Count("model:ttOut-checked", 1)
+				if sc.kind == "nmpout-corpus" && j == len(sc.steps)-1 {
+					// the regression script must keep raising nmpOut (and must not raise ttOut): it is the witness that
+					// `ttOut = false` is strictly weaker than `nmpOut = false`
+					e.r.Count("nmpout-corpus:checked", 1)
+					if !nmpOutFlag(ans) && !bad {
+						bad = true
+						e.r.Fail(common.Mismatch{Property: "C06", Kind: "broken-correspondence", Ops: sc.ops(j), Impl: impl, Model: ans,
+							Note: "regression script nmpout-corpus no longer raises the ghost flag nmpOut (the witness that the hypothesis ttOut = false is weaker than nmpOut = false is gone)"})
+					}
+				}
+				if ttOutFlag(ans) {
+					e.r.Count("model:ttOut-raised", 1)
+					e.r.Count("model:ttOut-raised:"+sc.kind, 1)
+					if !bad {
+						bad = true
+						e.r.Fail(common.Mismatch{Property: "C06", Kind: "broken-correspondence", Ops: sc.ops(j), Impl: impl, Model: ans,
+							Note: fmt.Sprintf("ghost flag ttOut raised: a value beyond ±max(Inf-MaxPlies, Inf-ply) was handed to a table store in this search (first observed out-of-band store; the hypothesis of go_*_real fails on this run; real table range [%d, %d])", sc.rawLo[j], sc.rawHi[j])})
+					}
 				}
 				if checked, held, guarded := saneVerdict(ans); checked {
 					e.r.Count("nmpsane-checked", 1)
